@@ -66,5 +66,19 @@ UNIT = Unit(
            loop_fn=lambda k, header, kw: ("invariant __ro0@.len() <= cs0.len(), __ro0@ == cs0.subrange(cs0.len() - __ro0@.len(), cs0.len() as int),\n"
                                           "  row.columns@ == kept_cols(cs0, cs0.len() - __ro0@.len()), wrapped(row.body, cs0, cs0.len() - __ro0@.len(), b0),\n"
                                           "decreases __ro0@.len(),")),
+        Fn(file=CM, name="compile_rows", ret="r", attrs="#[verifier::loop_isolation(false)]", rules=["attrs", ("strip", "tast::")],
+           cut_before="let bvar = branch_variable(&rows);", cut_tail="    compile_rows_rest(genv, gensym, diagnostics, rows, ty, match_range)",
+           pre_rewrites=[("for row in &mut rows {\n        move_variable_patterns(row);\n    }",
+                          "let ghost rows0 = rows@; let mut __ri: usize = 0; while __ri < rows.len() { move_variable_patterns(&mut rows[__ri]); __ri += 1; }"),
+                         ("rows.first().is_some_and(|c| c.columns.is_empty())", "(rows.len() > 0 && rows[0].columns.is_empty())")],
+           rewrites=[("    mut rows: Vec<Row>,", "    rows_in: Vec<Row>,"), ("if rows.is_empty() {", "let mut rows = rows_in; if rows.is_empty() {"),
+                     ("-> core::Expr", "-> CoreExpr")],
+           obligation="no rows left: the `missing` call (the match fails at that point); first row fully matched: ITS body is the result, whatever rows follow",
+           contract="""ensures rows_in@.len() == 0 ==> r == missing_of(*ty),
+            (rows_in@.len() > 0 && kept_cols(rows_in@[0].columns@, rows_in@[0].columns@.len() as int).len() == 0) ==>
+                exists|b: Expr| wrapped(b, rows_in@[0].columns@, rows_in@[0].columns@.len() as int, rows_in@[0].body) && r == #[trigger] core_of(b),""",
+           loop_fn=lambda k, header, kw: ("invariant __ri <= rows@.len(), rows@.len() == rows0.len(), rows0 == rows_in@,\n"
+                                          "  forall|i: int| 0 <= i < __ri ==> moved(rows0[i], #[trigger] rows@[i]),\n"
+                                          "  forall|i: int| __ri <= i < rows@.len() ==> rows@[i] == rows0[i],\ndecreases rows@.len() - __ri,")),
     ],
 )
